@@ -1,10 +1,40 @@
 """symx.harness -- per-task bookkeeping shared by the property harnesses."""
+import hashlib
+import os
 import z3
 
 from . import core
 from . import loader as _loader
 from .core import S, SB, model_value
 from .runner import jsonable
+
+
+def _run_file(key):
+    rd = os.environ.get('VERIF_RUN_DIR')
+    if not rd or not os.path.isdir(rd):
+        return None
+    return os.path.join(rd, hashlib.sha1(key.encode()).hexdigest()[:16])
+
+
+def _run_count(key):
+    """how many counterexample models the tasks of this run have produced for the key so far (shared through the run directory)"""
+    f = _run_file(key)
+    if f is None:
+        return 0
+    try:
+        return os.path.getsize(f)
+    except OSError:
+        return 0
+
+
+def _run_mark(key):
+    f = _run_file(key)
+    if f is not None:
+        try:
+            with open(f, 'ab') as fh:
+                fh.write(b'x')
+        except OSError:
+            pass
 
 
 class Harness:
@@ -43,9 +73,13 @@ class Harness:
         """prove cond under the path condition; on a model record a violation.
         Returns True when the claim holds."""
         self.obligations += 1
-        if sum(1 for v in self.violations if v['key'] == key) >= 3:
-            # this task already reports the key three times (each is replayed): further instances are not solved for, the verdict cannot change
+        if sum(1 for v in self.violations if v['key'] == key) >= 3 or _run_count(key) >= 8:
+            # the key is already reported often enough (this task: 3 models, this run: 8; each is replayed): further instances are
+            # not solved for -- finding a model of a polynomial path condition can take minutes and the verdict cannot change
             self.skipped_after_violation = getattr(self, 'skipped_after_violation', 0) + 1
+            return False
+        if sum(1 for i in self.inconclusive if i['key'] == key) >= 3:
+            # three inconclusive answers for this key: the task is inconclusive already, stop paying for more
             return False
         try:
             m = core.prove(cond, what, robust)
@@ -54,6 +88,7 @@ class Harness:
             return False
         if m is None:
             return True
+        _run_mark(key)
         if len(self.violations) < self.max_violations or not any(v['key'] == key for v in self.violations):
             self.violations.append({'key': key, 'what': what, 'case': jsonable(case_fn(m))})
         return False
